@@ -1061,6 +1061,8 @@ class Executor:
             return O(ref_of(v), "Val")
         if t == "bool" and isinstance(v, B):
             return v
+        if t == "bool" and isinstance(v, (O, NoneV, I)):
+            return B(truth_of(path, v))  # a dynamically typed value used where the callee reads a flag
         if t == "int" and isinstance(v, I):
             return v
         if t == "str":
